@@ -103,4 +103,26 @@ def gen():
     # the guard protects BOTH branches: it has to come before the enable_normalize test
     if not re.search(r"^\s*let\s+word_info\s*=\s*path\[begin\]\.word_info\(\);\s*if\s+word_info\.pos_id\(\)\s*!=\s*self\.numeric_pos_id\s*\{\s*return\s+Ok\(path\);\s*\}\s*if\s+self\.enable_normalize\s*\{", c):
         raise F.FactError("JoinNumericPlugin::concat: the part-of-speech guard no longer precedes the enable_normalize branch")
+    # JoinNumericPlugin settings: what enable_normalize is when the key `enableNormalize` is ABSENT from the settings
+    # (documented default: normalisation on).  Both spellings are read: Option<bool> + unwrap_or(X), or a plain bool with a
+    # serde default (bool::default() = false, or a named default function).
+    ms = re.search(r"struct\s+PluginSettings\s*\{(.*?)\}", n, flags=re.S)
+    if not ms:
+        raise F.FactError("JoinNumericPlugin: struct PluginSettings not found")
+    body = ms.group(1)
+    if re.search(r"enableNormalize\s*:\s*Option<bool>", body):
+        mu = re.search(r"self\.enable_normalize\s*=\s*(?:enable_normalize|settings\.enableNormalize)\.unwrap_or\((true|false)\)", n)
+        if not mu:
+            raise F.FactError("JoinNumericPlugin::set_up: default of the optional enableNormalize not recognised")
+        absent = mu.group(1)
+    elif re.search(r"#\[serde\(default\)\]\s*enableNormalize\s*:\s*bool", body):
+        absent = "false"   # bool::default()
+    else:
+        md = re.search(r"#\[serde\(default\s*=\s*\"(\w+)\"\)\]\s*enableNormalize\s*:\s*bool", body)
+        mf = md and re.search(r"fn\s+%s\s*\(\s*\)\s*->\s*bool\s*\{\s*(true|false)\s*\}" % md.group(1), n)
+        if not mf:
+            raise F.FactError("JoinNumericPlugin: enableNormalize is neither Option<bool> nor a bool with a recognised serde default")
+        absent = mf.group(1)
+    out.append("(* JoinNumericPlugin: enable_normalize when the settings do not mention enableNormalize *)\n")
+    out.append("Definition enable_normalize_when_absent : bool := %s.\n" % absent)
     return "".join(out)
